@@ -765,7 +765,7 @@ class Facts:
                    "util::messages_queue::MessagesQueue", "util::task_pool::TaskPool", "util::equal_reader::EqualReader", "util::fused_reader::FusedReader",
                    "util::refined_tcp_stream::RefinedTcpStream", "util::refined_tcp_stream::Stream", "response::TransferEncoding", "common::HTTPVersion",
                    "common::Method", "common::Header", "common::HeaderField", "common::StatusCode", "connection::Listener", "connection::Connection",
-                   "connection::ListenAddr"]
+                   "connection::ListenAddr", "Server", "IncomingRequests"]
     ANCHOR_FNS = ["request::new_request"]
 
     @staticmethod
@@ -777,7 +777,7 @@ class Facts:
         for canon in Facts.ANCHOR_ADTS:
             if canon in adts:
                 continue
-            name = canon.rsplit("::", 1)[1]
+            name = canon.rsplit("::", 1)[-1]
             cands = [k for k, a in adts.items() if k.rsplit("::", 1)[-1] == name and str(a.get("file", "")).startswith("src/")]
             if len(cands) == 1:
                 moves.append((cands[0], canon))
